@@ -5,6 +5,7 @@ pub mod pool;
 pub mod refm;
 pub mod run;
 pub mod sched;
+pub mod c04;
 pub mod c09;
 pub mod c18;
 pub mod c_engine;
@@ -20,6 +21,7 @@ pub fn dispatch(id: &str, ctx: &mut ev::Ctx) -> bool {
     match id {
         "C01" => c01::run(ctx),
         "C02" => c02::run(ctx),
+        "C04" => c04::run(ctx),
         "C05" => c_engine::run_c05(ctx),
         "C06" => c_engine::run_c06(ctx),
         "C07" => c_engine::run_c07(ctx),
